@@ -12,7 +12,8 @@
        if it does not (two different widths, incompatible usages);
      - ev is only Any: d = Some [Any];  ev is empty: no data (`type_of` answers Any). *)
 From SLX Require Import Base VectorMap DisjointSet gen.Constants gen.WordUseTable TypeExpr Merge Unify.
-From SLX Require Import UnifyOrder proofs.UnifyProofs proofs.UnifyOrderProofs proofs.UnifyCtorKept.
+From Coq Require Import String.
+From SLX Require Import gen.ValueSig UnifyOrder Register AbiT Layout Abi Pipeline gen.RulesSig proofs.UnifyProofs proofs.UnifyOrderProofs proofs.UnifyCtorKept proofs.LayoutJoin.
 Open Scope N_scope.
 
 Theorem C15_unify_words_join : forall fuel o st s n x, orders_ok o -> packed_free st = true ->
@@ -69,5 +70,43 @@ Example C15_unify_ctor_hyps_met :
   end.
 Proof. vm_compute. repeat split; auto. Qed.
 
+(* Through the layout loop: what the USER sees for a constant slot whose class carries word evidence is the join.  For every
+   iteration order and fuel, after unifying a packed-free judgement set the layout built for a constant-slot value x is the
+   single row (slot index, bit 0, ABI type of the join of ALL word evidence of x's class) -- the known width and the most
+   specific usage -- and a conflicted type when the evidence has no join; never a silent choice of one side. *)
+Theorem C15_layout_reports_join : forall fuel o st s n x index w l j t afuel,
+  orders_ok o -> packed_free st = true -> unify fuel o st = Ok (s, n) ->
+  (forall e, In e (class_evidence_of st s (tv_of x)) -> is_word e || is_any e = true) ->
+  words_of (class_evidence_of st s (tv_of x)) = w :: l -> wordev_join_all w l = Some j ->
+  const_slot_key x = Some index -> tv_of x < n ->
+  word_abi (word_of j) (fst j) (snd j) = Ok t ->
+  build_layout abi_nested_add abi_nested_fit (env_of_forest s n) (S afuel) [x] [] = Ok [(index, 0, t)].
+Proof. exact layout_reports_join_proof. Qed.
+
+Theorem C15_layout_reports_conflict : forall fuel o st s n x index w l afuel,
+  orders_ok o -> packed_free st = true -> unify fuel o st = Ok (s, n) ->
+  (forall e, In e (class_evidence_of st s (tv_of x)) -> is_word e || is_any e = true) ->
+  words_of (class_evidence_of st s (tv_of x)) = w :: l -> wordev_join_all w l = None ->
+  const_slot_key x = Some index -> tv_of x < n ->
+  build_layout abi_nested_add abi_nested_fit (env_of_forest s n) (S afuel) [x] [] = Ok [(index, 0, a_conflict)].
+Proof. exact layout_reports_conflict_proof. Qed.
+
+(* non-vacuity: slot 7 typed by variable 0 of C15_unify_hyps_met's set is reported as an address; slot 8 typed by the
+   contradictory variable 3 as a conflicted type *)
+Example C15_layout_hyps_met :
+  let st := mk_tstate [(0, [Equal 1; Word None UNumeric]); (1, [Equal 0; Equal 2; Word (Some 160) UBytes]);
+                       (2, [Equal 1; Word None UAddress]); (3, [Word (Some 8) UBool; Word (Some 160) UAddress])] 4 in
+  match unify 6 orders_sorted st with
+  | Ok (s, n) =>
+      build_layout abi_nested_add abi_nested_fit (env_of_forest s n) 5 [TN 0 T_StorageSlot [] [TN 9 T_KnownData [7] []]] []
+        = Ok [(7, 0, AT "Address" [] [])] /\
+      build_layout abi_nested_add abi_nested_fit (env_of_forest s n) 5 [TN 3 T_StorageSlot [] [TN 9 T_KnownData [8] []]] []
+        = Ok [(8, 0, a_conflict)]
+  | _ => False
+  end.
+Proof. vm_compute. split; reflexivity. Qed.
+
 Print Assumptions C15_unify_words_join.
 Print Assumptions C15_unify_ctor_kept.
+Print Assumptions C15_layout_reports_join.
+Print Assumptions C15_layout_reports_conflict.
